@@ -216,11 +216,11 @@ def run(prog: Program, res: Result) -> None:
     # R3: rates only under the optional criteria
     ss = prog.func(f"{ABSTRACT}.__should_stop__")
     guards = {}
-    for n in own_nodes(ss):
-        if isinstance(n, ast.Assign) and len(n.targets) == 1 and isinstance(n.targets[0], ast.Name):
-            d = dotted(n.value)
-            if d in ("self._config.fitness_error", "self._config.early_stopping"):
-                guards[n.targets[0].id] = d
+    from ..optmodel import simple_assigns
+    for (nm, val, _st) in simple_assigns(ss.node):
+        d = dotted(val)
+        if d in ("self._config.fitness_error", "self._config.early_stopping"):
+            guards[nm] = d
     rate_params = set(ss.params[1:])
     for n in own_nodes(ss):
         is_rate = (isinstance(n, ast.Name) and n.id in rate_params and isinstance(n.ctx, ast.Load)) or \
@@ -229,13 +229,15 @@ def run(prog: Program, res: Result) -> None:
             continue
         ok = False
         for a in ancestors(n):
-            if isinstance(a, ast.If) and isinstance(a.test, ast.Compare) and len(a.test.ops) == 1 \
-                    and isinstance(a.test.ops[0], ast.IsNot) and isinstance(a.test.comparators[0], ast.Constant) \
+            if isinstance(a, (ast.If, ast.IfExp)) and isinstance(a.test, ast.Compare) and len(a.test.ops) == 1 \
+                    and isinstance(a.test.ops[0], (ast.IsNot, ast.Is)) and isinstance(a.test.comparators[0], ast.Constant) \
                     and a.test.comparators[0].value is None:
                 l = a.test.left
                 if (isinstance(l, ast.Name) and l.id in guards) or dotted(l) in guards.values():
-                    # n must be in the body, not the orelse
-                    if any(n is x for s in a.body for x in ast.walk(s)):
+                    # n must be in the branch where the optional criterion is configured
+                    pos_branch = (a.body if isinstance(a.test.ops[0], ast.IsNot) else a.orelse)
+                    pos_nodes = [pos_branch] if isinstance(a, ast.IfExp) else pos_branch
+                    if any(n is x for s in pos_nodes for x in ast.walk(s)):
                         ok = True
         key = construct_key(prog, n, ss.module)
         res.ob(ok, f"{ss.module.relpath}:{n.lineno} {norm(n)} guarded={ok}", key)
